@@ -1,8 +1,8 @@
 ------------------------------ MODULE MC_EvalSem ------------------------------
 (* Case generation for C02 (spec -> code): this shard's programs with the value EvalSem.tla assigns to them, as JSON lines. *)
 EXTENDS EvalSem, IOUtils
-CONSTANTS Shard, NShards
-PSeq == SetToSeq(AllPrograms)
+CONSTANTS Shard, NShards, DeepSpace
+PSeq == SetToSeq(IF DeepSpace THEN DeepPrograms ELSE AllPrograms)
 Mine == {PSeq[i] : i \in {i \in 1..Len(PSeq) : i % NShards = Shard}}
 ASSUME ndJsonSerialize(IOEnv.OUT, SetToSeq({[ast |-> e, val |-> Eval(e)] : e \in Mine}))
 VARIABLE x
